@@ -71,3 +71,10 @@ Theorem C02_accessors_take_their_own_way_back :
   forallb Chain_tie.accessor_row_ok T7chain.accessor_back_table = true /\ List.length T7chain.accessor_back_table = 39.
 Proof. exact Chain_tie.accessor_back_paths. Qed.
 Print Assumptions C02_accessors_take_their_own_way_back.
+
+(* the functions of this property whose Gallina counterpart is hand-written (or that only the oracles reach) still read, statement by statement, as they did when
+   the model was last validated against them (Gen/T9text.v regenerated from the source on every run; Proofs/Text_C02.v holds the validated text) *)
+From XV Require Gen.T9text Proofs.Text_C02.
+Theorem C02_hand_modelled_functions_read_as_validated : Text_C02.all_frozen.
+Proof. exact Text_C02.all_frozen_holds. Qed.
+Print Assumptions C02_hand_modelled_functions_read_as_validated.
